@@ -747,8 +747,12 @@ func findMaskCompare(k *kctx) []ast.Expr {
 		if !ok || (b.Op != token.NEQ && b.Op != token.EQL) {
 			return false
 		}
-		l, ok := stripParens(b.X).(*ast.BinaryExpr)
-		return ok && l.Op == token.AND && k.nonConst(l)
+		for _, side := range []ast.Expr{b.X, b.Y} { // the masked value may stand on either side of the comparison
+			if l, ok := stripParens(side).(*ast.BinaryExpr); ok && l.Op == token.AND && k.nonConst(l) {
+				return true
+			}
+		}
+		return false
 	})
 	if n == nil {
 		k.fail(k.fn, "no comparison of a masked value")
